@@ -6,7 +6,9 @@ depth d, and every reset mask (None + all 2^3 masks), the history is applied, re
    activations and delay buffers) bit for bit, no contacts reported, and the next K steps bit-identical;
  * every unselected world must equal the same world of a twin Data that ran the same history without the reset:
    state, reported contacts, and the next K steps;
- * MuJoCo-defined fields of selected worlds equal mj_resetData's.
+ * MuJoCo-defined fields of selected worlds equal mj_resetData's;
+ * the sticky overflow word of selected worlds is cleared and that of unselected worlds kept (model `rich_tight` runs with
+   capacities that overflow, so the word is non-zero before the reset).
 """
 
 import itertools
